@@ -17,6 +17,7 @@ def run(ctx):
     ctx.do(SI.rule_eig1, only={"Hyperplane.from_reflection", "Isometry._fixpoint_data"})
     ctx.do(SH.rule_ax1, [SH.CORE, H.HYP], scope=ctx.scope(ENTRIES))
     ctx.do(SI.rule_ref1)
+    ctx.do(SI.rule_mean1, [SI.HYP], scope=ctx.scope(ENTRIES))
     ctx.do(SH.rule_sh5, only={"Subspace._data_with_dual", "Subspace.spacelike_complement"})
     ctx.do(u1, ENTRIES, min_functions=15)
     ctx.r.assume("involutivity, fixed sets and the ordering of fixed points "
